@@ -67,6 +67,7 @@ t1_read_var_signed!(t1_read_signed_i8, i8);
 /// of length <= 11, two consecutive reads (so the second starts from an arbitrary offset).
 #[kani::proof]
 #[kani::unwind(13)]
+#[kani::stub(std::str::from_utf8, from_utf8_model)]
 fn t1_cursor_fixed() {
     let buf: [u8; 11] = kani::any();
     let n = any_len(11);
@@ -793,14 +794,22 @@ fn t6_message<const N: usize>(tag: u8) {
     use yrs::sync::protocol::Message;
     let buf: [u8; N] = kani::any();
     let mut full = [0u8; 16];
-    full[0] = tag;
+    // tags >= 128 are two-byte var-ints: both bytes concrete, so the decoded tag is constant
+    let t = if tag >= 128 {
+        full[0] = tag;
+        full[1] = 1;
+        2
+    } else {
+        full[0] = tag;
+        1
+    };
     let mut i = 0;
     while i < N {
-        full[i + 1] = buf[i];
+        full[i + t] = buf[i];
         i += 1;
     }
     let mut len = 1;
-    while len <= N + 1 {
+    while len <= N + t {
         set_cap_limit(len);
         let r = Message::decode_v1(&full[..len]);
         clear_cap_limit();
@@ -836,7 +845,7 @@ t6_msg!(t6_msg_awareness, 1, 3, 12);
 t6_msg!(t6_msg_auth, 2, 3, 12);
 t6_msg!(t6_msg_query, 3, 2, 12);
 t6_msg!(t6_msg_custom_4, 4, 3, 12);
-t6_msg!(t6_msg_custom_200, 200, 3, 12);
+t6_msg!(t6_msg_custom_200, 200, 3, 12); // bytes [0xC8, 0x01] = tag 200
 
 // ---------------------------------------------------------------------------------------------
 // T7: count fields vs. capacity requests of the map-backed wire types (path ends at the stub)
